@@ -718,7 +718,7 @@ func c13CloneLaws(r *ev.Run, p *prng.R) {
 }
 
 func c13Child(r *ev.Run, batch int) {
-	rounds := r.N(40, 900)
+	rounds := r.N(40, 9000)
 	for ri := 0; ri < rounds; ri++ {
 		p := prng.Derive(r.Seed, "C13", batch, ri)
 		r.LogCase(fmt.Sprintf("C13 batch=%d round=%d", batch, ri))
